@@ -303,17 +303,14 @@ impl<'a, const N: usize> PropsView for __PrivateMacroProps<'a, N> {
     open spec fn kvs(&self) -> Seq<Kv> { some_kvs(entries_view(self.0@)) }
 }
 
-// de-duplication: ANY sequence that yields every key of the source once, with the source's
-// first value for it (the order is the implementation's: a sorted map, or the source's own
-// order when the source already claims uniqueness)
+// de-duplication: a sequence that yields every key of the source once, with the source's first value for it.
+// WHICH one `Dedup<P>` enumerates is a function of the source's sequence and of the source's answer to
+// `is_unique()` (`dedup_seq`, below: the source's own order if it claims uniqueness, ascending key order otherwise)
 pub open spec fn is_dedup_of(d: Seq<Kv>, s: Seq<Kv>) -> bool {
     no_dup_keys(d) && (forall|k: Key| first(d, k) == first(s, k))
 }
-pub open spec fn dedup_kvs(s: Seq<Kv>) -> Seq<Kv> {
-    choose|d: Seq<Kv>| is_dedup_of(d, s)
-}
 impl<P: PropsView + ?Sized> PropsView for Dedup<P> {
-    open spec fn kvs(&self) -> Seq<Kv> { dedup_kvs(self.0.kvs()) }
+    open spec fn kvs(&self) -> Seq<Kv> { dedup_seq(self.0.kvs(), claims_unique(&self.0)) }
 }
 
 // ---------------------------------------------------------------- lemmas about the sequences
@@ -428,51 +425,257 @@ pub proof fn lemma_ascending_no_dup(e: Seq<Entry>)
     }
 }
 
-// a de-duplication exists for every sequence (so `dedup_kvs` is one)
-pub open spec fn dedup_front(s: Seq<Kv>) -> Seq<Kv>
+// Shared (C02, C13): the sequence `Dedup<P>` enumerates, as a FUNCTION of the source's sequence and of the answer
+// the source gives to `is_unique()`:
+//   - the source claims uniqueness (and is indeed duplicate-free): the source's own sequence, in its own order
+//     (core/src/props.rs:279-281, the short-cut);
+//   - otherwise: every key once, with its FIRST value, in ascending key order (`str` order = lexicographic on
+//     bytes): what a `BTreeMap` filled with `entry(k).or_insert(v)` yields (core/src/props.rs:283-294).
+
+// strictly ascending keys
+pub open spec fn asc_keys(d: Seq<Kv>) -> bool {
+    forall|i: int, j: int| 0 <= i < j < d.len() ==> lex_lt(#[trigger] d[i].0, #[trigger] d[j].0)
+}
+
+// insert-if-absent into an ascending sequence
+pub open spec fn ins_absent(d: Seq<Kv>, kv: Kv) -> Seq<Kv>
+    decreases d.len()
+{
+    if d.len() == 0 { seq![kv] }
+    else if d[0].0 == kv.0 { d }
+    else if lex_lt(kv.0, d[0].0) { seq![kv] + d }
+    else { seq![d[0]] + ins_absent(d.drop_first(), kv) }
+}
+
+pub open spec fn sorted_dedup(s: Seq<Kv>) -> Seq<Kv>
     decreases s.len()
 {
-    if s.len() == 0 { Seq::empty() }
-    else {
-        let d = dedup_front(s.drop_last());
-        if first(d, s.last().0) is Some { d } else { d.push(s.last()) }
+    if s.len() == 0 { Seq::empty() } else { ins_absent(sorted_dedup(s.drop_last()), s.last()) }
+}
+
+// the answer `p.is_unique()` gives (a function of the value: `is_unique` takes `&self` and has no other input)
+pub uninterp spec fn claims_unique<P: ?Sized>(p: &P) -> bool;
+
+pub open spec fn dedup_seq(s: Seq<Kv>, unique: bool) -> Seq<Kv> {
+    if unique && no_dup_keys(s) { s } else { sorted_dedup(s) }
+}
+
+pub open spec fn same_first(a: Seq<Kv>, b: Seq<Kv>) -> bool {
+    forall|k: Key| first(a, k) == first(b, k)
+}
+
+pub open spec fn has_key(d: Seq<Kv>, k: Key) -> bool {
+    exists|i: int| 0 <= i < d.len() && d[i].0 == k
+}
+
+pub proof fn lemma_first_some(s: Seq<Kv>, k: Key)
+    ensures first(s, k) is Some <==> has_key(s, k)
+{
+    lemma_first_none(s, k);
+    if first(s, k) is Some {
+        let i = choose|i: int| 0 <= i < s.len() && s[i].0 == k;
+        assert(0 <= i < s.len() && s[i].0 == k);
     }
 }
 
-pub proof fn lemma_dedup_front(s: Seq<Kv>)
-    ensures is_dedup_of(dedup_front(s), s)
+pub proof fn lemma_asc_tail(d: Seq<Kv>)
+    requires asc_keys(d), d.len() > 0
+    ensures
+        asc_keys(d.drop_first()),
+        forall|i: int| 0 <= i < d.drop_first().len() ==> lex_lt(d[0].0, #[trigger] d.drop_first()[i].0),
+        first(d.drop_first(), d[0].0) is None,
+{
+    let t = d.drop_first();
+    assert forall|i: int, j: int| 0 <= i < j < t.len() implies lex_lt(#[trigger] t[i].0, #[trigger] t[j].0) by {
+        assert(lex_lt(d[i + 1].0, d[j + 1].0));
+    }
+    assert forall|i: int| 0 <= i < t.len() implies lex_lt(d[0].0, #[trigger] t[i].0) by {
+        assert(lex_lt(d[0].0, d[i + 1].0));
+    }
+    lemma_first_none(t, d[0].0);
+    assert forall|i: int| 0 <= i < t.len() implies t[i].0 != d[0].0 by {
+        lemma_lex_irrefl(d[0].0);
+    }
+}
+
+pub proof fn lemma_asc_no_dup(d: Seq<Kv>)
+    requires asc_keys(d)
+    ensures no_dup_keys(d)
+{
+    assert forall|i: int, j: int| 0 <= i < j < d.len() implies d[i].0 != d[j].0 by {
+        assert(lex_lt(d[i].0, d[j].0));
+        lemma_lex_irrefl(d[i].0);
+    }
+}
+
+// a key smaller than the head of an ascending sequence is not in it
+pub proof fn lemma_asc_below_head(d: Seq<Kv>, k: Key)
+    requires asc_keys(d), d.len() > 0, lex_lt(k, d[0].0)
+    ensures first(d, k) is None
+{
+    lemma_first_none(d, k);
+    assert forall|i: int| 0 <= i < d.len() implies d[i].0 != k by {
+        if i > 0 { assert(lex_lt(d[0].0, d[i].0)); lemma_lex_trans(k, d[0].0, d[i].0); }
+        lemma_lex_irrefl(k);
+    }
+}
+
+pub open spec fn ins_first(d: Seq<Kv>, kv: Kv, k: Key) -> Option<Val> {
+    if first(d, k) is Some { first(d, k) } else if k == kv.0 { Some(kv.1) } else { None }
+}
+
+pub proof fn lemma_ins_absent(d: Seq<Kv>, kv: Kv)
+    requires asc_keys(d)
+    ensures
+        asc_keys(ins_absent(d, kv)),
+        forall|k: Key| first(ins_absent(d, kv), k) == ins_first(d, kv, k),
+        forall|i: int| 0 <= i < ins_absent(d, kv).len() ==> (#[trigger] ins_absent(d, kv)[i]).0 == kv.0 || has_key(d, ins_absent(d, kv)[i].0),
+    decreases d.len()
+{
+    let r = ins_absent(d, kv);
+    if d.len() == 0 {
+        assert forall|k: Key| first(r, k) == ins_first(d, kv, k) by { reveal_with_fuel(first, 2); }
+    } else if d[0].0 == kv.0 {
+        assert forall|i: int| 0 <= i < r.len() implies (#[trigger] r[i]).0 == kv.0 || has_key(d, r[i].0) by {
+            assert(d[i].0 == r[i].0);
+        }
+    } else if lex_lt(kv.0, d[0].0) {
+        assert forall|i: int, j: int| 0 <= i < j < r.len() implies lex_lt(#[trigger] r[i].0, #[trigger] r[j].0) by {
+            if i == 0 {
+                if j > 1 { assert(lex_lt(d[0].0, d[j - 1].0)); lemma_lex_trans(kv.0, d[0].0, d[j - 1].0); }
+            } else {
+                assert(lex_lt(d[i - 1].0, d[j - 1].0));
+            }
+        }
+        lemma_asc_below_head(d, kv.0);
+        assert forall|k: Key| first(r, k) == ins_first(d, kv, k) by {
+            lemma_first_concat(seq![kv], d, k);
+            assert(first(seq![kv], k) == (if kv.0 == k { Some(kv.1) } else { None::<Val> })) by { reveal_with_fuel(first, 2); }
+        }
+        assert forall|i: int| 0 <= i < r.len() implies (#[trigger] r[i]).0 == kv.0 || has_key(d, r[i].0) by {
+            if i > 0 { assert(d[i - 1].0 == r[i].0); }
+        }
+    } else {
+        let t = d.drop_first();
+        let rt = ins_absent(t, kv);
+        lemma_asc_tail(d);
+        lemma_ins_absent(t, kv);
+        lemma_lex_total(kv.0, d[0].0);
+        assert(lex_lt(d[0].0, kv.0));
+        assert(r =~= seq![d[0]] + rt);
+        assert forall|i: int, j: int| 0 <= i < j < r.len() implies lex_lt(#[trigger] r[i].0, #[trigger] r[j].0) by {
+            if i == 0 {
+                assert(r[j] == rt[j - 1]);
+                if rt[j - 1].0 != kv.0 {
+                    assert(has_key(t, rt[j - 1].0));
+                    let x = choose|x: int| 0 <= x < t.len() && t[x].0 == rt[j - 1].0;
+                    assert(lex_lt(d[0].0, t[x].0));
+                }
+            } else {
+                assert(lex_lt(rt[i - 1].0, rt[j - 1].0));
+            }
+        }
+        assert forall|k: Key| first(r, k) == ins_first(d, kv, k) by {
+            lemma_first_concat(seq![d[0]], rt, k);
+            assert(first(seq![d[0]], k) == (if d[0].0 == k { Some(d[0].1) } else { None::<Val> })) by { reveal_with_fuel(first, 2); }
+            assert(first(rt, k) == ins_first(t, kv, k));
+        }
+        assert forall|i: int| 0 <= i < r.len() implies (#[trigger] r[i]).0 == kv.0 || has_key(d, r[i].0) by {
+            if i == 0 {
+                assert(d[0].0 == r[0].0);
+            } else if rt[i - 1].0 != kv.0 {
+                assert(has_key(t, rt[i - 1].0));
+                let x = choose|x: int| 0 <= x < t.len() && t[x].0 == rt[i - 1].0;
+                assert(d[x + 1].0 == r[i].0);
+            }
+        }
+    }
+}
+
+// the sorted de-duplication: ascending (hence duplicate-free), and every key has the source's FIRST value
+pub proof fn lemma_sorted_dedup(s: Seq<Kv>)
+    ensures
+        asc_keys(sorted_dedup(s)),
+        same_first(sorted_dedup(s), s),
     decreases s.len()
 {
     if s.len() > 0 {
         let s1 = s.drop_last();
         let x = s.last();
-        let d1 = dedup_front(s1);
-        let d = dedup_front(s);
-        lemma_dedup_front(s1);
+        lemma_sorted_dedup(s1);
+        lemma_ins_absent(sorted_dedup(s1), x);
         assert(s =~= s1 + seq![x]);
-        assert forall|k: Key| first(d, k) == first(s, k) by {
+        assert forall|k: Key| first(sorted_dedup(s), k) == first(s, k) by {
             lemma_first_concat(s1, seq![x], k);
             assert(first(seq![x], k) == (if x.0 == k { Some(x.1) } else { None::<Val> })) by { reveal_with_fuel(first, 2); }
-            if first(d1, x.0) is Some {
-                assert(first(d1, k) == first(s1, k));
-            } else {
-                assert(d =~= d1 + seq![x]);
-                lemma_first_concat(d1, seq![x], k);
-            }
-        }
-        if first(d1, x.0) is None {
-            lemma_first_none(d1, x.0);
-            assert(d =~= d1.push(x));
+            assert(first(sorted_dedup(s1), k) == first(s1, k));
+            assert(first(sorted_dedup(s), k) == ins_first(sorted_dedup(s1), x, k));
         }
     } else {
-        assert forall|k: Key| first(dedup_front(s), k) == first(s, k) by {}
+        assert forall|k: Key| first(sorted_dedup(s), k) == first(s, k) by {}
     }
 }
 
-pub proof fn lemma_dedup_kvs(s: Seq<Kv>)
-    ensures is_dedup_of(dedup_kvs(s), s)
+// an ascending sequence is determined by its lookups
+pub proof fn lemma_asc_unique(a: Seq<Kv>, b: Seq<Kv>)
+    requires asc_keys(a), asc_keys(b), same_first(a, b)
+    ensures a == b
+    decreases a.len()
 {
-    lemma_dedup_front(s);
+    if a.len() == 0 {
+        if b.len() > 0 { assert(first(a, b[0].0) == first(b, b[0].0)); }
+        assert(a =~= b);
+    } else {
+        assert(first(a, a[0].0) == first(b, a[0].0));
+        assert(b.len() > 0);
+        assert(first(a, b[0].0) == first(b, b[0].0));
+        lemma_lex_total(a[0].0, b[0].0);
+        if lex_lt(a[0].0, b[0].0) { lemma_asc_below_head(b, a[0].0); }
+        if lex_lt(b[0].0, a[0].0) { lemma_asc_below_head(a, b[0].0); }
+        assert(a[0] == b[0]);
+        lemma_asc_tail(a);
+        lemma_asc_tail(b);
+        let ta = a.drop_first();
+        let tb = b.drop_first();
+        assert forall|k: Key| first(ta, k) == first(tb, k) by {
+            assert(first(a, k) == first(b, k));
+        }
+        lemma_asc_unique(ta, tb);
+        assert(a =~= seq![a[0]] + ta);
+        assert(b =~= seq![b[0]] + tb);
+    }
+}
+
+// any ascending sequence with the source's lookups IS the sorted de-duplication
+pub proof fn lemma_sorted_dedup_unique(s: Seq<Kv>)
+    ensures forall|d: Seq<Kv>| #[trigger] asc_keys(d) && same_first(d, s) ==> d == sorted_dedup(s)
+{
+    lemma_sorted_dedup(s);
+    assert forall|d: Seq<Kv>| #[trigger] asc_keys(d) && same_first(d, s) implies d == sorted_dedup(s) by {
+        assert forall|k: Key| first(d, k) == first(sorted_dedup(s), k) by {
+            assert(first(d, k) == first(s, k));
+            assert(first(sorted_dedup(s), k) == first(s, k));
+        }
+        lemma_asc_unique(d, sorted_dedup(s));
+    }
+}
+
+pub proof fn lemma_dedup_seq(s: Seq<Kv>, unique: bool)
+    ensures is_dedup_of(dedup_seq(s, unique), s)
+{
+    if !(unique && no_dup_keys(s)) {
+        lemma_sorted_dedup(s);
+        lemma_asc_no_dup(sorted_dedup(s));
+        assert forall|k: Key| first(sorted_dedup(s), k) == first(s, k) by {}
+    }
+}
+
+// `Dedup<P>::kvs()` is a de-duplication of the source's sequence, whatever the source answers to `is_unique()`
+pub proof fn lemma_dedup_kvs(s: Seq<Kv>)
+    ensures forall|u: bool| is_dedup_of(#[trigger] dedup_seq(s, u), s)
+{
+    lemma_dedup_seq(s, true);
+    lemma_dedup_seq(s, false);
 }
 
 // slices: one more child contributes its own sequence
